@@ -34,7 +34,8 @@ RULE = ("per transport variant (Client, ClientTls, Incomer, IncomerTls, Driver+f
         "queue of 1-2 messages of length 1-3 (thorough: 1-3 messages of length 1-4) until drained or 5 (thorough 7; 6 / 5 for "
         "3-message queues of length <= 3 / 4) service calls, + exhaustive receive scripts (chunk lengths 1-3 / would-block, up to 4 items, "
         "serviceReceives and serviceReceiveOnce), + Hypothesis histories (<= 120 ops, messages up to 2 KiB, interleaved "
-        "tx/rx, TLS want-read/want-write) + real socketpair cases with minimal kernel buffers; invariant checked after "
+        "tx/rx, TLS want-read/want-write) + backlogs of 40 .. 1100 (thorough 4200) messages queued while the peer is stalled "
+        "after a partial send + real socketpair cases with minimal kernel buffers; invariant checked after "
         "every step. non-trivial = the transport met >= 1 partial send and >= 1 would-block (real sockets: >= 1 partial "
         "progress and >= 1 no-progress service call); distinct = distinct (variant, operation list)")
 ASSUMPTIONS = [
@@ -502,6 +503,7 @@ def plan(tier):
         for g in groups:
             shards.append({"part": "exh", "variant": v, "lens": [list(l) for l in g]})
         shards.append({"part": "rx", "variant": v})
+        shards.append({"part": "backlog", "variant": v})
     nrand = 6 if tier == "quick" else 30
     for i in range(nrand):
         shards.append({"part": "rand", "i": i, "variant": FAKE_VARIANTS[i % len(FAKE_VARIANTS)]})
@@ -567,6 +569,19 @@ def work(shard, seed, tier):
                         acc.fail(sig, what, case)
         acc.exhaustive = True
         acc.note("every receive script of <= 4 items (chunk length 1-3 / would-block) x every batching enumerated")
+        return acc
+    if part == "backlog":
+        # a long backlog: the peer stalls after a partial send, the application keeps queueing, then the peer recovers
+        for n in ([40, 257, 300, 1100] if tier == "quick" else [40, 100, 255, 256, 257, 300, 513, 1100, 2100, 4200]):
+            for size in (1, 3):
+                ops = [["tx", 4], ["svtx", [2, D.WB]]] + [["tx", size] for _ in range(n)] + [["svtx", [D.WB]], ["svtx"]]
+                case = {"variant": variant, "ops": ops}
+                fails, info = run_case(case)
+                nt, cls = classes_of(variant, info, fails)
+                acc.case(key=(variant, "backlog", n, size), nontrivial=nt, classes=cls + ["backlog", "backlog>256" if n > 256 else "backlog<=256"],
+                         sample={"variant": variant, "ops": ops[:4], "n_ops": len(ops)} if (n == 300 and size == 3) else None)
+                for sig, what in fails:
+                    acc.fail(sig, what, case)
         return acc
     if part == "rand":
         n = 200 if tier == "quick" else 1500
